@@ -87,6 +87,13 @@ def solver_cases(tier, rng):
             for b in bodies3:
                 for q in ("u($X, $Y, $Z)", "u($X, $X, $Y)", "u($Z, $Y, $X)"):
                     out.append((["%s" % ftxt, e, "u($Y, $W, $V) :- %s." % b], q))
+    # clauses whose variables have long names that agree in their first 16 / 24 or last 8 characters (a renaming map keyed by
+    # too little of the name merges them; unifications that need no occurs check then bind a variable into a term containing it)
+    for a, b in (("$FirstElement", "$LastElement"), ("$LeftNeighbour", "$RightNeighbour"), ("$TemperatureReadingCelsius", "$TemperatureReadingKelvin"),
+                 ("$PartialResultOfRecursiveCallLeft", "$PartialResultOfRecursiveCallRight"), ("$A", "$B")):
+        out.append((["pair(%s, box(%s))." % (a, b)], "pair($A, $A)"))
+        out.append((["follows(%s, %s) :- %s = next(%s)." % (a, b, b, a)], "follows($X, $Y)"))
+        out.append((["eq($P, $P).", "w(%s, %s) :- eq(%s, [%s])." % (a, b, a, b)], "w($X, $Y)"))
     res = []
     for rules, q in out:
         res.append(("(hist (kb-text %s) %s (ask 0) (ask 0))" % (" ".join(S(r) for r in rules), progs.build_text(0, q)), "solver"))
